@@ -2,7 +2,7 @@
 import srvprops
 
 PROP = "C18"
-THEOREMS = ["C18_join_events_exact", "C18_join_refused_no_event", "C18_leave_events_exact", "C18_replay_join_step", "C18_replay_leave_step", "C18_failed_leave_notification", "C18_conc_event_confinement", "C18_source_segment_layout", "C18_conc_join_announced", "C18_conc_refused_join_is_silent"]
+THEOREMS = ["C18_join_events_exact", "C18_join_refused_no_event", "C18_leave_events_exact", "C18_replay_join_step", "C18_replay_leave_step", "C18_failed_leave_notification", "C18_conc_event_confinement", "C18_source_segment_layout", "C18_conc_join_announced", "C18_conc_refused_join_is_silent", "C18_conc_leave_announced"]
 
 
 import serverlib as sl
